@@ -640,9 +640,21 @@ class Interp:
                 for t in target.elts:
                     self.assign(t, Unknown("unpack"), st)
                 return [(None, st)]
+            stars = [i for i, t in enumerate(target.elts) if isinstance(t, ast.Starred)]
+            if len(stars) == 1:
+                i = stars[0]
+                n_after = len(target.elts) - i - 1
+                if len(items) < len(target.elts) - 1:
+                    return [(Raised("ValueError", target, "not enough values to unpack"), st)]
+                mid = items[i:len(items) - n_after]
+                pairs = list(zip(target.elts[:i], items[:i])) + [(target.elts[i].value, st.alloc(HObj("list", items=list(mid))))] + list(zip(target.elts[i + 1:], items[len(items) - n_after:]))
+                res: Results = [(None, st)]
+                for t, v in pairs:
+                    res = self.bind(res, lambda _, s, t=t, v=v: self.assign(t, v, s))
+                return res
             if len(items) != len(target.elts):
                 return [(Raised("ValueError", target, "unpack length mismatch"), st)]
-            res: Results = [(None, st)]
+            res = [(None, st)]
             for t, v in zip(target.elts, items):
                 res = self.bind(res, lambda _, s, t=t, v=v: self.assign(t, v, s))
             return res
